@@ -1,6 +1,6 @@
 //! C20 — dropping a simulation releases every module, task and message exactly once.
 //! Generated simulations (parent/child modules, a ring of channels through a transit gate,
-//! channel backlog under three queue policies, tasks blocked on timers / receives / far-future
+//! channel backlog under three queue policies, nodes made from the library's building blocks (AsyncFn::new / io / failable, ModuleFn, HandlerFn) holding counted state, tasks blocked on timers / receives / far-future
 //! sleeps and holding messages, processing elements, a shut-down-and-restarted module, a
 //! panicking module) x every stopping point (never built, built, started and partly stepped,
 //! every event-count limit, time limits, run to completion, ended with errors) x drop order,
@@ -220,6 +220,59 @@ fn build(c: &Cfg) -> des::net::SimBuilder<()> {
     s.node("mid", Mid { _t: Tok::new(MODS), shutdown: c.shutdown });
     s.node("rx", Rx { _t: Tok::new(MODS), cfg: *c, tx: None });
     s.node("rx.child", Mid { _t: Tok::new(MODS), shutdown: false });
+    if c.tasks {
+        // nodes made from the library's building blocks, each holding counted state
+        use des::net::blocks::{AsyncFn, HandlerFn, ModuleFn};
+        s.node(
+            "bl_io",
+            AsyncFn::io(|mut rx| {
+                let t = Tok::new(TASK);
+                schedule_in(Message::default().kind(20).with_content(Tok::new(BODY)), Duration::from_secs(2));
+                async move {
+                    let _t = t;
+                    let mut held = vec![];
+                    while let Some(m) = rx.recv().await {
+                        held.push(m);
+                    }
+                    Ok(())
+                }
+            }),
+        );
+        s.node(
+            "bl_failable",
+            AsyncFn::failable(|_rx| {
+                let t = Tok::new(TASK);
+                async move {
+                    let _t = t;
+                    for _ in 0..1000 {
+                        sleep(Duration::from_secs(7)).await;
+                    }
+                    Ok::<(), std::io::Error>(())
+                }
+            }),
+        );
+        s.node(
+            "bl_new",
+            AsyncFn::new(|mut rx| {
+                let t = Tok::new(TASK);
+                schedule_in(Message::default().kind(21).with_content(Zt::new()), Duration::from_secs(4));
+                async move {
+                    let _t = t;
+                    while let Some(m) = rx.recv().await {
+                        drop(m);
+                    }
+                }
+            }),
+        );
+        s.node("bl_module_fn", ModuleFn::new(|| Tok::new(MODS), |_state, _m| {}));
+        let held = Tok::new(MODS);
+        s.node(
+            "bl_handler_fn",
+            HandlerFn::new(move |_m| {
+                let _ = &held;
+            }),
+        );
+    }
     let a = s.gate("tx", "out");
     let t = s.gate("mid", "transit");
     let b = s.gate("rx", "in");
